@@ -493,6 +493,22 @@ def correspondence(ctx):
                                          '_repr_html_, tof.chopper_cascade.Chopper.from_disk_chopper; rotation sense and frequency ratio '
                                          '(1, 2, 1/2 of the pulse frequency) from the seed',
             'filtering': 'find_plateaus (float / int64 time coordinate, min_n_points int or index variable), collapse_plateaus, filter_in_phase',
+            'filtering scalar-argument spellings': 'every scalar argument in every spelling of the same quantity, ACCEPTED AND REFUSED (the argument must be '
+                                                   'unchanged in values, dtype, dims and UNIT after a refusal too): find_plateaus min_n_points = python int | numpy int | '
+                                                   'python float | sc.index | int64 / int32 / float64 with unit=None | int64 / float64 / float32 dimensionless | counts | '
+                                                   '1-element arrays, x n in {3, seeded 1..5}; atol = float64 / float32 / int64 Hz/s | mHz/s | Hz/ms | with variance | '
+                                                   'dimensionless | unit=None | Hz | python float | 1-element array | seeded value; data with variances + mask + extra '
+                                                   'coord, no plateau found; collapse_plateaus on those, unknown coord name, other plateau dim; filter_in_phase reference = '
+                                                   'float64 / float32 / int64 Hz | kHz | 1/s | with variance | dimensionless | unit=None | python float | 0 Hz | seeded, '
+                                                   'rtol = float64 / float32 / int64 dimensionless | unit=None | percent | python float | with variance | per element',
+            'fit_peaks windows': 'explicit 2-d windows x edge VALUE classes relative to the data range and to each other: inside | edges outside the data | '
+                                 'lower edge outside | overlapping | overlapping and outside | a window entirely beyond the data | reversed edges (refused) | '
+                                 'infinite edges | seeded (estimate -/+ U(0.1, 2.0)) x dims (d, range) | (range, d) x estimates ascending | descending x window dtype '
+                                 '= data dtype | float64 x window unit = coordinate unit | the other of angstrom / nm (refused) x data with a mask; scalar windows wider '
+                                 'than the data, estimates outside the data, scalar window in another unit; optional arguments as caller-owned objects: '
+                                 'FitParameters (seeded values; neighbor_separation_factor also as a Variable), FitRequirements, lists of Model objects / names '
+                                 'for background and peak (all plain classes for the base variant, out-of-range + seeded + one class chosen by the seed for the '
+                                 'other dtype / unit variants, seeded only for the layouts that do not exist for peaks)',
             'peak model parameters': 'GaussianModel / LorentzianModel / PseudoVoigtModel / CompositeModel (polynomial+gaussian, lorentzian+pseudo-voigt) '
                                      '.__call__ and .fwhm, FitResult.eval_model / eval_peak / remove_peaks x parameter VALUE classes: ordinary | '
                                      'scale = 0 | smallest normal float | negative | -0.0 | inf | amplitude 0 / negative | loc outside the x range | '
